@@ -138,7 +138,10 @@ impl<Octs> Nsec3<Octs> {
 
     pub fn scan<S: Scanner<Octets = Octs>>(
         scanner: &mut S,
-    ) -> Result<Self, S::Error> {
+    ) -> Result<Self, S::Error>
+    where
+        Octs: AsRef<[u8]>,
+    {
         Ok(Self::new(
             Nsec3HashAlgorithm::scan(scanner)?,
             u8::scan(scanner)?,
@@ -542,7 +545,10 @@ impl<Octs> Nsec3param<Octs> {
 
     pub fn scan<S: Scanner<Octets = Octs>>(
         scanner: &mut S,
-    ) -> Result<Self, S::Error> {
+    ) -> Result<Self, S::Error>
+    where
+        Octs: AsRef<[u8]>,
+    {
         Ok(Self::new(
             Nsec3HashAlgorithm::scan(scanner)?,
             u8::scan(scanner)?,
@@ -916,7 +922,10 @@ impl Nsec3Salt<[u8]> {
 impl<Octs> Nsec3Salt<Octs> {
     pub fn scan<S: Scanner<Octets = Octs>>(
         scanner: &mut S,
-    ) -> Result<Self, S::Error> {
+    ) -> Result<Self, S::Error>
+    where
+        Octs: AsRef<[u8]>,
+    {
         #[derive(Default)]
         struct Converter(Option<Option<base16::SymbolConverter>>);
 
@@ -965,9 +974,10 @@ impl<Octs> Nsec3Salt<Octs> {
             }
         }
 
-        scanner
-            .convert_token(Converter::default())
-            .map(|res| unsafe { Self::from_octets_unchecked(res) })
+        scanner.convert_token(Converter::default()).and_then(|res| {
+            Self::from_octets(res)
+                .map_err(|_| S::Error::custom("NSEC3 salt too long"))
+        })
     }
 
     pub fn parse<'a, Src: Octets<Range<'a> = Octs> + ?Sized>(
@@ -1300,10 +1310,16 @@ impl<Octs> OwnerHash<Octs> {
 
     pub fn scan<S: Scanner<Octets = Octs>>(
         scanner: &mut S,
-    ) -> Result<Self, S::Error> {
+    ) -> Result<Self, S::Error>
+    where
+        Octs: AsRef<[u8]>,
+    {
         scanner
             .convert_token(base32::SymbolConverter::new())
-            .map(|octets| unsafe { Self::from_octets_unchecked(octets) })
+            .and_then(|octets| {
+                Self::from_octets(octets)
+                    .map_err(|_| S::Error::custom("NSEC3 owner hash too long"))
+            })
     }
 
     /// Converts the hash into the underlying octets.
@@ -1416,8 +1432,10 @@ where
     type Err = base32::DecodeError;
 
     fn from_str(s: &str) -> Result<Self, Self::Err> {
-        base32::decode_hex(s)
-            .map(|octets| unsafe { Self::from_octets_unchecked(octets) })
+        base32::decode_hex(s).and_then(|octets| {
+            // The hash cannot hold more than 255 octets.
+            Self::from_octets(octets).map_err(|_| base32::DecodeError::ShortBuf)
+        })
     }
 }
 
